@@ -27,7 +27,7 @@ ASSUMPTIONS = ['time.time frozen by the harness', 'files > 4 GiB are not generat
 RULE = ('random structured histories (add/remove/link/symlink/hide) x cfg (level 1-4 x Joliet x Rock Ridge 1.09/1.10/1.12 x UDF x XA); '
         'distinct = distinct (cfg, op list); non-trivial = at least 3 accepted structural edits')
 LEVEL_TEXT = ('Specification and independent decoder are Lean definitions; theorems about the specification (well-formedness, exactness '
-              'of removals, blob lifetime) are proved; the implementation is sandwiched between Spec.run and Reader.read on every '
+              'of removals, blob lifetime, tree invariants, order of the records of a multi-extent file) are proved; the implementation is sandwiched between Spec.run and Reader.read on every '
               'generated history. Refinement of the byte-level writer is partial (see PARTIAL).')
 LEVEL_NOTE = 'Trusted: Lean kernel, Spec as the statement of the property, readers, generator coverage (distribution printed in evidence).'
 TECHNIQUE = 'Lean 4 specification + independent Lean decoder, differential against pycdlib; proved spec lemmas'
